@@ -15,16 +15,20 @@ LEVEL_TEXT = ("All message lengths 0..4096 for md5/sha1/sha224/sha256/sha384/sha
               "are enumerated on every run; chunkings, re-use of one object for 1..5 messages, long messages (up to 1 MiB, multi-MiB in the "
               "grid), the hmac/aes session ciphers and hexadecimal key parsing are sampled with rapidcheck.  Every result is compared with "
               "libcrypto's EVP interface (cppcms uses bundled MD5/SHA-1, its own RFC 2104 code and the low-level SHA*/AES_* entry points).")
-LEVEL_NOTE = ("SHA-2 and AES come from the same libcrypto on both sides (different entry points), so for them the wrapper logic (reset, clone, block "
+LEVEL_NOTE = ("For a cbc object re-used without set_iv between two messages crypto.h promises nothing explicit: continuing the chain and "
+              "restarting from the configured IV are both accepted for the first block (the implementation chains).  SHA-2 and AES come from the same libcrypto on both sides (different entry points), so for them the wrapper logic (reset, clone, block "
               "size, key schedule selection, IV handling) is what is decided, not the primitive; Python's non-OpenSSL _md5/_sha1/_sha256/_sha512 "
               "modules re-check a sample.  SHA-1 messages >= 512 MiB are excluded by construction (recorded finding: 32-bit length counter), "
               "single append() calls >= 256 MiB, big-endian hosts (the aes cookie stores its length in host byte order) and the gcrypt "
               "back-end (not compiled here) are not exercised.")
 DESIGN_REF = "3/C16"
 RULE = ("A case = (algorithm, digest|hmac, way of constructing the object, key, 1..5 messages each with its list of append cut points) or "
-        "(aes type, key, iv, plaintext blocks, call segmentation) or (session cipher kind, keys, plaintexts) or (hex key text, entry point). "
+        "(aes type, key, iv, plaintext blocks, call segmentation) or (aes type, way of creating the object, key, history of 1..6 messages "
+        "each preceded by set_iv / nothing / set_iv twice / set_key(same key), which of encrypt-only / decrypt-only / both-directions objects "
+        "live through it) or (session cipher kind, keys, plaintexts) or (hex key text, entry point). "
         "Non-trivial (hash): some message length is congruent to 55..64 mod 64 (111..128 mod 128 for sha384/512), or the HMAC key is longer "
-        "than the block, or the object is used for a second message; cbc/cookie/key cases: every executed case; huge: six streamed messages "
+        "than the block, or the object is used for a second message; cbc/cookie/key cases: every executed case; cbc re-use histories: "
+        "those with at least two messages; huge: six streamed messages "
         "of 2^29-65..2^29+5 bytes (2^32 bits: the carry of the bundled md5/sha1 length counters).  Distinct = hash of the serialised case.  "
         "Grid and huge shards are disjoint; random shards draw from one space (largest shard counted).")
 
@@ -135,7 +139,7 @@ def post(res, units_, bins):
 def run(tier, seed):
     nr, n = counts(tier)
     return verif.standard(ID, tier, seed, specs(), units, RULE, level=LEVEL,
-                          floor={"grid": 150000, "random": nr * n * 4, "huge": 6},
+                          floor={"grid": 150000, "random": nr * n * 5, "huge": 6},
                           assumptions=["libcrypto's EVP_Digest/HMAC()/EVP_aes_*_cbc implement FIPS 180-4, RFC 1321, RFC 2104 and SP 800-38A correctly "
                                        "(re-checked on a sample against Python's built-in hash modules and an RFC 2104 HMAC written out in Python)",
                                        "the reference session-cookie decoder/encoder and hex parser in harness/c16_crypto.cpp (40 lines) state the wire format "
@@ -145,7 +149,8 @@ def run(tier, seed):
                           post=post,
                           extra={"exhaustive_subspace": "message lengths 0..4096 x 6 digests; HMAC key lengths 0..3*block+1 x 6; HMAC message lengths 0..1024 x 3 key "
                                                         "classes x 6; all cut pairs of a (2 blocks+2)-byte message; all compositions of 0..10 bytes into <=6 appends; "
-                                                        "AES-CBC 1..64 blocks x 3 key sizes x 16 construction variants; all 2-character hex digit pairs"})
+                                                        "AES-CBC 1..64 blocks x 3 key sizes x 16 construction variants; cbc object re-use: 3 key sizes x 4 ways of creating x k=2..4 messages x "
+                                                        "which message gets set_iv (once/twice) x encrypt-only/decrypt-only/both-directions object; all 2-character hex digit pairs"})
 
 
 def replay(path):
@@ -183,6 +188,10 @@ MUTATIONS = [
         ("src/aes.cpp", "AES_set_decrypt_key(reinterpret_cast<unsigned char const *>(key_.data()), type_, &key_dec_);", "AES_set_decrypt_key(reinterpret_cast<unsigned char const *>(key_.data()), 128, &key_dec_);")]),
     # aes: set_iv forgets the decryption direction (the session cipher does not notice: it discards the first block)
     dict(name="aes-set-iv-forgets-decrypt-iv", edits=[("src/aes.cpp", "\t\t\tmemcpy(iv_dec_,ptr,size);\n", "")]),
+    # aes: set_iv on an object that has already encrypted something does not reach the encryption chain (message #2 is chained onto message #1)
+    dict(name="aes-set-iv-ignored-by-used-encrypting-object", edits=[("src/aes.cpp", "\t\t\tmemcpy(iv_enc_,ptr,size);\n", "\t\t\tif(!encryption_initialized_) memcpy(iv_enc_,ptr,size);\n")]),
+    # aes: the mirror for a re-used decrypting object
+    dict(name="aes-set-iv-ignored-by-used-decrypting-object", edits=[("src/aes.cpp", "\t\t\tmemcpy(iv_dec_,ptr,size);\n", "\t\t\tif(!decryption_initialized_) memcpy(iv_dec_,ptr,size);\n")]),
     # key: upper-case hex digits mis-decoded
     dict(name="key-from-hex-uppercase", edits=[("src/crypto.cpp", "return c-'A' + 10;", "return c-'A';")]),
     # key: validation lets 'g' through (off-by-one in the range test)
